@@ -634,9 +634,37 @@ class DescribeAclsResponse_v1(Response):
 
 
 class DescribeAclsResponse_v2(Response):
+    """
+    Enable flexible version
+    """
+
     API_KEY = 29
     API_VERSION = 2
-    SCHEMA = DescribeAclsResponse_v1.SCHEMA
+    SCHEMA = Schema(
+        ("throttle_time_ms", Int32),
+        ("error_code", Int16),
+        ("error_message", CompactString("utf-8")),
+        (
+            "resources",
+            CompactArray(
+                ("resource_type", Int8),
+                ("resource_name", CompactString("utf-8")),
+                ("resource_pattern_type", Int8),
+                (
+                    "acls",
+                    CompactArray(
+                        ("principal", CompactString("utf-8")),
+                        ("host", CompactString("utf-8")),
+                        ("operation", Int8),
+                        ("permission_type", Int8),
+                        ("tags", TaggedFields),
+                    ),
+                ),
+                ("tags", TaggedFields),
+            ),
+        ),
+        ("tags", TaggedFields),
+    )
 
 
 class DescribeAclsRequest_v0(RequestStruct):
@@ -675,8 +703,18 @@ class DescribeAclsRequest_v2(RequestStruct):
 
     API_KEY = 29
     API_VERSION = 2
+    FLEXIBLE_VERSION = True
     RESPONSE_TYPE = DescribeAclsResponse_v2
-    SCHEMA = DescribeAclsRequest_v1.SCHEMA
+    SCHEMA = Schema(
+        ("resource_type", Int8),
+        ("resource_name", CompactString("utf-8")),
+        ("resource_pattern_type_filter", Int8),
+        ("principal", CompactString("utf-8")),
+        ("host", CompactString("utf-8")),
+        ("operation", Int8),
+        ("permission_type", Int8),
+        ("tags", TaggedFields),
+    )
 
 
 DescribeAclsRequestStruct: TypeAlias = DescribeAclsRequest_v0 | DescribeAclsRequest_v1
